@@ -173,6 +173,36 @@ fn check_projection(opts: &Opts, steps: &[Step]) -> Result<(), String> {
     Ok(())
 }
 
+fn volume_case() -> Result<(), String> {
+    let addrs: Vec<u32> = (0..70_000u32).map(|i| 0x100000 + i * 7 + 1).collect();
+    let lines: Vec<String> = addrs.iter().map(|a| bits::df11(*a, 5, 0).hex()).chain((0..24).map(|_| bits::df11(0x4840D6, 5, 0).hex())).collect();
+    let t = run::new_table();
+    let r = run::run_lines(&Opts::quiet(), &t, &lines);
+    let snap = run::snapshot(&t);
+    let missing = addrs.iter().filter(|a| !snap.contains_key(a)).count();
+    if r.is_err() || missing > 0 || snap.len() != addrs.len() + 1 {
+        return Err(format!("70 000 aircraft heard once each within one run (no expiry configured): {} of them have no row, the table holds {} rows", missing, snap.len()));
+    }
+    Ok(())
+}
+
+fn lock_case() -> Result<(), String> {
+    let t = run::new_table();
+    let path = run::tmp_dir().join("c03-lock.txt");
+    let _ = std::fs::write(&path, format!("{}\n{}\n", bits::df11(0x4840D6, 5, 0).hex(), bits::df4(0xA12345, bits::ac13_q1(1000), 0).hex()));
+    let args = std::sync::Arc::new(Opts::quiet().args(&path.to_string_lossy()));
+    let guard = t.read().unwrap();
+    let h = squitterator::spawn_reader_thread(args, squitterator::Planes { aircrafts: t.clone() });
+    std::thread::sleep(std::time::Duration::from_millis(150));
+    drop(guard);
+    let _ = h.join();
+    let snap = run::snapshot(&t);
+    if !snap.contains_key(&0x4840D6) || !snap.contains_key(&0xA12345) {
+        return Err(format!("frames that arrived while another thread held a read guard on the table were lost: rows {:?}", snap.keys().map(|k| format!("{:06X}", k)).collect::<Vec<_>>()));
+    }
+    Ok(())
+}
+
 fn run(c: &mut Ctx) {
     // (a1) address sweep through get_icao, fixed generated payload per format
     let stride_bits = c.tier.pick(2u32, 0u32); // quick: every 4th address (2^22), thorough: all 2^24
@@ -299,6 +329,45 @@ fn run(c: &mut Ctx) {
             }
         }
     }
+    // (a5) volume: 70 000 distinct aircraft in one run - every one keeps its own row (worker 0)
+    if c.worker == 0 {
+        c.eval(1);
+        c.class("volume_70000_aircraft");
+        c.nontrivial(&"volume");
+        if let Err(m) = volume_case() {
+            if !c.failed() {
+                c.fail(m, "c03:volume", json!({"kind":"volume"}));
+            }
+        }
+    }
+    // (a6) a frame must be applied even if another thread holds a read guard on the public table for a while
+    if c.worker == 1 % c.nworkers {
+        c.eval(1);
+        c.class("table_read_guard_held_elsewhere");
+        if let Err(m) = lock_case() {
+            if !c.failed() {
+                c.fail(m, "c03:lock", json!({"kind":"lock"}));
+            }
+        }
+    }
+    // (a7) frames whose address equals the CRC of their own payload (the AP field is then all zeros)
+    {
+        let seeds = c.draw(c.tier.pick(400usize, 4000usize), (proptest::sample::select(vec![0u32, 4, 5, 16, 20, 21]), gen::fill128()));
+        for (i, (df, fill)) in seeds.into_iter().enumerate() {
+            if !c.mine(i as u64) {
+                continue;
+            }
+            let probe = build(df, 1, fill);
+            let addr = probe.data_crc();
+            c.eval(1);
+            c.class("address_equals_payload_crc");
+            if let Err(m) = check_single(df, addr, fill, true) {
+                if !c.failed() {
+                    c.fail(m, "c03:single", json!({"kind":"single","df":df,"addr":addr,"fill":fill.to_string(),"reader":true}));
+                }
+            }
+        }
+    }
     // (b) interleaved histories
     let cases = c.tier.pick(6000, 100_000);
     let strat = (gen::opts_ur(), (2usize..=4).prop_flat_map(|n| alphabet::history(n, 5..40, 3)));
@@ -317,6 +386,16 @@ fn run(c: &mut Ctx) {
 fn replay(c: &mut Ctx, case: &Value) {
     c.eval(1);
     match case.get("kind").and_then(|k| k.as_str()) {
+        Some("volume") => {
+            if let Err(m) = volume_case() {
+                c.fail(m, "c03:volume", case.clone());
+            }
+        }
+        Some("lock") => {
+            if let Err(m) = lock_case() {
+                c.fail(m, "c03:lock", case.clone());
+            }
+        }
         Some("pair") => {
             let df = case["df"].as_u64().unwrap_or(0) as u32;
             let addr = case["addr"].as_u64().unwrap_or(0) as u32;
